@@ -9,6 +9,7 @@ import (
 	"github.com/biogo/hts/fai"
 
 	"verif/core"
+	"verif/mon"
 )
 
 func init() {
@@ -16,7 +17,7 @@ func init() {
 		ID:    "C19",
 		Level: "exploration",
 		Rule: "a case is a generated FASTA file: 1..6 records, line widths 1..80, LF or CRLF, last line shorter or equal, with/without final newline, optional description after the name, optional blank lines between records, names over [A-Za-z0-9_.|:-], non-empty sequences; the generator records each sequence's bases and byte layout as it writes them (the oracle; no FASTA parsing shared with the library). " +
-			"Checks: fai.NewIndex reports the true Length/Start/BasesPerLine/BytesPerLine of every record; ReadFrom(WriteTo(idx)) equals idx; for EVERY (name,start,end) with 0<=start<=end<=length when length <= 40, and 60 sampled triples otherwise, File.SeqRange read with buffer sizes {1,2,7,4096} returns exactly bases[start:end] then io.EOF; File.Seq returns the whole sequence. " +
+			"Checks: fai.NewIndex reports the true Length/Start/BasesPerLine/BytesPerLine of every record; the file reaches NewIndex through one of six reader kinds (plain, non-seekable, short reads, last bytes returned together with io.EOF whole or in chunks); ReadFrom(WriteTo(idx)) equals idx; WriteTo to a destination whose k-th write fails (k=1..3) returns the error or has delivered everything; for EVERY (name,start,end) with 0<=start<=end<=length when length <= 40, and 60 sampled triples otherwise, File.SeqRange read with buffer sizes {1,2,7,4096} returns exactly bases[start:end] then io.EOF; File.Seq returns the whole sequence. " +
 			"Non-trivial: >= 2 records or a multi-line sequence; distinct = distinct files.",
 		Floor:       map[string]int{"quick": 300, "thorough": 6000},
 		Plan:        c19Plan,
@@ -141,7 +142,22 @@ func c19Run(c core.Case) *core.Result {
 			nt++
 		}
 		pv, st := core.Recover(func() {
-			idx, err := fai.NewIndex(bytes.NewReader(data))
+			// the source is a plain reader, one that cannot seek, one that
+			// returns short reads, or one that returns its last bytes together
+			// with io.EOF (whole or in chunks), as compress/gzip and network
+			// bodies do
+			var src io.Reader
+			sk := rng.Intn(6)
+			switch sk {
+			case 4:
+				src = &eagerEOF{b: data, max: 1 + rng.Intn(200)}
+			case 5:
+				src = &eagerEOF{b: data, max: 4096}
+			default:
+				src = wrapSource(data, sk, rng)
+			}
+			r.Count(fmt.Sprintf("newindex_source_kind_%d", sk), 1)
+			idx, err := fai.NewIndex(src)
 			if err != nil {
 				r.Violate("newindex|error", "%s: NewIndex on a well-formed file: %v\n%q", desc, err, show)
 				return
@@ -169,6 +185,18 @@ func c19Run(c core.Case) *core.Result {
 			if err := fai.WriteTo(&out, idx); err != nil {
 				r.Violate("writeto|error", "%s: WriteTo: %v", desc, err)
 				return
+			}
+			// a destination that fails at its k-th write (accepting half of
+			// it first, sometimes): WriteTo returns the error, or everything
+			// that was to be written is there
+			for k := 1; k <= 3; k++ {
+				fw := &mon.RecWriter{FailAt: k, Partial: rng.Intn(2) == 0}
+				if err := fai.WriteTo(fw, idx); err == nil && !bytes.Equal(fw.Bytes(), out.Bytes()) {
+					r.Violate("writeto|fault-swallowed", "%s: WriteTo returned nil although write %d of the destination failed; %d of %d bytes were delivered", desc, k, fw.Len(), out.Len())
+					return
+				} else if err != nil {
+					r.Count("writeto_fault_reported", 1)
+				}
 			}
 			idx2, err := fai.ReadFrom(bytes.NewReader(out.Bytes()))
 			if err != nil {
